@@ -11,6 +11,11 @@ def main():
     def build(beh, k0):
         beh = [b for b in beh if b["zooms"]]
         cases = make_cases(beh, "bw", sizes, run, zq=1, k0=k0)
+        for k, c in enumerate(cases):
+            if k % 10 == 7 and any(it[3] == 3 for it in c["items"]):
+                c["vmap"] = "intinf"         # value token 3 is +infinity in these files (0 * inf must not leak NaN into other records)
+                c["zq"] = 0
+                run.cov["infinite_value_cases"] = run.cov.get("infinite_value_cases", 0) + 1
         # the same layouts under an affine embedding of positions (resolutions scale with it: exact)
         emb = make_cases(beh[::5], "bw", sizes, run, zq=0, k0=k0)
         for k, c in enumerate(emb):
@@ -65,6 +70,7 @@ def main():
                        "position embeddings x7/x1000/x65536; non-trivial = a gap >= the finest resolution or a value longer than it; distinct by (items, ips, zooms, scale)")
     run.sample({"items": obs[len(obs) // 3]["items"], "opts": obs[len(obs) // 3]["opts"], "zooms": obs[len(obs) // 3]["obs"].get("zooms")})
     run.assumptions += ["integer-valued data: statistics are compared exactly; f32 narrowing of zoom records is exact in this range",
+                        "files holding +infinity (a tenth of the layouts with value 3): records spanning an infinite base are judged on extent and covered bases only, every other record exactly",
                         "automatic zoom ladders are exercised in the thorough tier through scaled embeddings only"]
     return run.finish()
 
